@@ -4,4 +4,10 @@ import os, sys
 sys.path.insert(0, os.path.dirname(os.path.abspath(__file__)))
 from engines import s
 s.build()
+try:
+    from engines import m
+    if hasattr(m, "setup"):
+        m.setup()
+except Exception as e:
+    print("engine M setup skipped:", e)
 print("setup ok")
